@@ -223,3 +223,26 @@ func init() {
 			Expect: []string{"C19.R1@internal/packages/internal/packagerender.templateContext#assert-"}},
 	)
 }
+
+// Round four (corpus G*): a slice made with a constant length, kept in an address-taken variable.
+func init() {
+	const apis = "internal/preflight/apis_exist.go"
+	const lit = "\t\tviolations := []Violation{{Error: fmt.Sprintf(\"%s not registered on the api server.\", gvk)}}\n"
+	made := func(mk, pre string) string {
+		return "\t\tviolations := " + mk + "\n" + pre + "\t\tviolations[0].Error = fmt.Sprintf(\"%s not registered on the api server.\", gvk)\n"
+	}
+	addMutants(
+		// OwnOnly: C11.R3 (passes-only-by-delegation) does not yet read a violation list that is filled
+		// after make() as a rejection — the same false alarm it raises on corpus patch G10-2, which is
+		// being corrected in the C11 rules; drop OwnOnly once that is merged.
+		Mutant{Prop: "C19", Name: "r2-benign-make-len1-then-index", File: apis, Benign: true, OwnOnly: true,
+			Old: lit, New: made("make([]Violation, 1)", "")},
+		Mutant{Prop: "C19", Name: "r2-make-len0-then-index", File: apis,
+			Why: "make([]Violation, 0, 1) has no element 0: the preflight check panics for every unregistered API",
+			Old: lit, New: made("make([]Violation, 0, 1)", ""),
+			Expect: []string{"C19.R2@(*internal/preflight.APIExistence).Check"}},
+		Mutant{Prop: "C19", Name: "r2-make-len1-index-1", File: apis,
+			Old: lit, New: "\t\tviolations := make([]Violation, 1)\n\t\tviolations[1].Error = fmt.Sprintf(\"%s not registered on the api server.\", gvk)\n",
+			Expect: []string{"C19.R2@(*internal/preflight.APIExistence).Check"}},
+	)
+}
